@@ -152,6 +152,7 @@ def run_property(pid, P, tier, repo, seed):
         if found.get("failing"):
             r["replayed"] = True
             r["input"] = found["failing"]["input"]
+            r["receiver"] = found["failing"].get("receiver")
             r["observed"] = found["failing"]["observed"]
             r["violated_clause"] = found["failing"]["clause"]
             r["contract"] = r["function"]
@@ -204,12 +205,13 @@ def z3_version():
     return z3.get_version_string()
 
 
-def native_search(repo, c, split, one_input=None):
+def native_search(repo, c, split, one_input=None, receiver=None):
     import subprocess
     here = os.path.dirname(os.path.dirname(os.path.abspath(__file__)))
     req = {"module": c["module"], "contract": c["name"], "split": split}
     if one_input is not None:
         req["input"] = one_input
+        req["receiver"] = receiver
     env = dict(os.environ)
     env["PYTHONPATH"] = repo + os.pathsep + here
     env["PYTHONDONTWRITEBYTECODE"] = "1"
@@ -231,7 +233,7 @@ def replay(pid, rec, repo):
         return 1
     from pyvc.registry import Registry
     reg = Registry(repo)
-    found = native_search(repo, reg.contracts[rec["contract"]], rec.get("split", {}), one_input=rec["input"])
+    found = native_search(repo, reg.contracts[rec["contract"]], rec.get("split", {}), one_input=rec["input"], receiver=rec.get("receiver"))
     if found.get("failing"):
         print("replay on the real code:", rec["input"], "->", found["failing"]["observed"], "; violates", found["failing"]["clause"])
         print(f"VIOLATION property={pid} replay=<this file>")
